@@ -157,7 +157,7 @@ def _c02_one(ctx: Any, case: Dict[str, Any], name: str) -> None:
                 shown = num(row["sold_pct"])
                 if shown is None:
                     shown = Fraction(0)
-                    if expected != 0:
+                    if expected >= Fraction(5, 10**14):
                         ctx.violation("coverage.cli-sold-percentage-blank", {"lot": lot.uid, "expected": float(expected)}, case)
                         continue
                 if abs(shown - expected) > Fraction(1, 10**9):
